@@ -110,10 +110,12 @@ pub trait Help {
     fn list_commands<W: Write<Error = E>, E: crate::verif_specs::embedded_io::Error>(
         writer: &mut Writer<'_, W, E>,
     ) -> Result<(), E>;
-//@ // ASSUMED of every implementor (derive output): prints through the Writer API and reports sink failures
+//@ // Contract of every implementor: prints through the Writer API and reports sink failures.  PROVED for the code
+//@ // emitted by #[derive(CommandGroup)] (module tmpl_group_help, two members of generic type) and for RawCommand; ASSUMED of
+//@ // the per-command printers emitted by #[derive(Command)].
 //@ requires old(writer).wf(),
-//@ ensures crate::writer::writer_api_only(writer),
-//@     r is Ok ==> final(writer).errs() == old(writer).errs(),
+//@ ensures crate::writer::writer_api_only(writer),   // [C14,C13]
+//@     r is Ok ==> final(writer).errs() == old(writer).errs(),   // [C14]
 
     #[cfg(feature = "help")]
     /// Print help for given command. Command might contain -h or --help options
@@ -129,11 +131,15 @@ pub trait Help {
         command: RawCommand<'_>,
         writer: &mut Writer<'_, W, E>,
     ) -> Result<(), HelpError<E>>;
-//@ // ASSUMED of every implementor (derive output): prints through the Writer API and reports sink failures
+//@ // Contract of every implementor (see list_commands): in particular a sink failure is never swallowed -- whatever is
+//@ // returned other than WriteError means that no sink operation failed
 //@ requires old(writer).wf(),
-//@     forall|w: &mut Writer<'_, W, E>| w.wf() ==> #[trigger] parent.requires((w,)),
-//@ ensures crate::writer::writer_api_only(writer),
-//@     !(r matches Err(HelpError::WriteError(_))) ==> final(writer).errs() == old(writer).errs(),
+//@     // the continuation that prints the parent's part of the usage line can be called with any well-formed Writer;
+//@     // stated on the closure itself (the pointee), so that it survives the reborrow when the reference is passed on
+//@     forall|w: &mut Writer<'_, W, E>| w.wf() ==> #[trigger] (*old(parent)).requires((w,)),
+//@ ensures crate::writer::writer_api_only(writer),   // [C14,C13]
+//@     !(r matches Err(HelpError::WriteError(_))) ==> final(writer).errs() == old(writer).errs(),   // [C14]
+//@     forall|w: &mut Writer<'_, W, E>| w.wf() ==> #[trigger] (*final(parent)).requires((w,)),
 }
 
 pub trait FromRaw<'a>: Sized {
